@@ -28,8 +28,10 @@ def item_source(item):
     return SRC_ROOT()
 
 
-def build_unit(unit):
-    """-> (text, linemap[list of (item_name, default_obls)], meta)"""
+def build_unit(unit, force_lost=None):
+    """-> (text, linemap[list of (item_name, default_obls)], meta). force_lost: {item name: reason} - items to replace by their
+    assumed signature stub (used when the verifier cannot even type-check an edited function against its contract)."""
+    force_lost = force_lost or {}
     chunks = []  # (owner, obls, text)
     meta = {"functions": [], "rewrites": [], "dropped": ["attributes and doc comments preceding/inside extracted items (D1)"]}
     head = "#![allow(unused_imports, unused_variables, unused_mut, dead_code, unused_parens, unused_assignments, non_snake_case)]\nuse vstd::prelude::*;\n"
@@ -49,6 +51,8 @@ def build_unit(unit):
         root = item_source(it)
         if k == "fn":
             try:
+                if it.get("rename", it["name"]) in force_lost:
+                    raise Inconclusive(force_lost[it.get("rename", it["name"])])
                 raw, line = extract.extract_fn(root, it)
                 txt = extract.strip_inner_attrs_and_comments(raw)
                 txt, rlog = extract.apply_rewrites(txt, it.get("rewrites"), "fn " + it["name"])
@@ -57,8 +61,17 @@ def build_unit(unit):
                 if it.get("optional"):
                     meta.setdefault("optional_absent", []).append(it.get("qual", it["name"]))
                     continue
-                # a lost anchor in ONE item only drops that item: its obligations become inconclusive, the rest of the unit is still checked
+                # a lost anchor in ONE item only loses that item: its obligations become inconclusive; if its signature still carries the
+                # contract it stays in the unit as an ASSUMED stub so that its callers are still checked
                 meta.setdefault("lost_items", {})[it.get("rename", it["name"])] = str(ex)
+                try:
+                    raw2, _l = extract.extract_fn(root, it)
+                    t2 = extract.strip_inner_attrs_and_comments(raw2)
+                    t2, _ = extract.apply_rewrites(t2, [r for r in (it.get("rewrites") or []) if r[2] == 0], "fn " + it["name"])
+                    stub = extract.stub_fn(t2, it)
+                    chunks.append((it.get("rename", it["name"]) + "<stub>", [], stub))
+                except Exception:
+                    pass
                 continue
             meta["functions"].append({"fn": it.get("qual", it["name"]), "file": ("source/" if not it.get("root") else it["root"] + ":") + it["file"], "line": line,
                                       "sha256_of_extracted_text": __import__("hashlib").sha256(raw.encode()).hexdigest()[:16]})
@@ -135,10 +148,10 @@ def run_verus(text, tag, timeout=600, extra_args=None):
         shutil.rmtree(d, ignore_errors=True)
 
 
-def check_unit(name, canary=True, timeout=600):
+def check_unit(name, canary=True, timeout=600, force_lost=None, _depth=0):
     """-> dict(ok, functions{fn: {success,time_ms,rlimit,mode}}, errors[{fn, obls, line, msg, text}], meta, wall, trusted)"""
     unit = load_unit(name)
-    text, linemap, meta = build_unit(unit)
+    text, linemap, meta = build_unit(unit, force_lost)
     js, diags, wall = run_verus(text, name, timeout, unit.get("verus_args"))
     vr = js.get("verification-results", {})
     lines = text.splitlines()
@@ -169,8 +182,18 @@ def check_unit(name, canary=True, timeout=600):
                        "label": prim[0].get("label"), "text": lines[prim[0]["line_start"] - 1].strip()[:200] if prim[0]["line_start"] <= len(lines) else ""})
     VERIF_MSG = re.compile(r"(not satisfied|assertion failed|possible |decreases|Resource limit|rlimit|failed to prove|cannot prove|could not prove|might not|assertion might|loop invariant|unreachable)", re.I)
     nonverif = [e for e in errors if not VERIF_MSG.search(e["msg"])]
+    if nonverif and _depth < 3:
+        # rustc / mode / unsupported-construct errors inside an extracted fn: that item alone is treated as lost (replaced by its assumed
+        # signature stub) and the unit is re-run, so that the other items are still checked. Never a violation.
+        item_names = set(it.get("rename", it["name"]) for it in unit["items"] if it["kind"] == "fn")
+        owners = set(e["fn"] for e in nonverif if e["fn"] in item_names and e["fn"] not in (force_lost or {}))
+        if owners:
+            fl = dict(force_lost or {})
+            for o in owners:
+                first = next(e for e in nonverif if e["fn"] == o)
+                fl[o] = "the edited function no longer type-checks against its contract (compile-stage): %s @ %s" % (first["msg"][:160], first["text"][:100])
+            return check_unit(name, canary, timeout, fl, _depth + 1)
     if nonverif:
-        # rustc / mode / unsupported-construct errors: the edited code left the subset this unit can take. Never a violation.
         raise Inconclusive("verus could not process unit %s (compile-stage error in extracted fn %s): %s @ %s" % (name, nonverif[0]["fn"], nonverif[0]["msg"], nonverif[0]["text"]))
     if vr.get("encountered-vir-error") or (not vr.get("success") and not errors) or hard:
         why = "; ".join(hard) or "; ".join(d.get("message", "") for d in diags)[:1500]
